@@ -7,7 +7,7 @@
 From verif Require Import lib.Base model.C34_width model.C33
   proofs.C33_proofs proofs.C33_proofs2 proofs.C33_proofs3 proofs.C33_glue
   model.C33_styledown proofs.C33_sd_flat proofs.C33_sd_table proofs.C33_sd_round
-  proofs.C33_sd_main proofs.C33_sd_inst.
+  proofs.C33_sd_main proofs.C33_sd_inst proofs.C33_sd_short.
 Open Scope Z_scope.
 
 (* The decidable normal form used by the oracle is the proposition Normal. *)
@@ -236,6 +236,18 @@ Theorem C33_styledown_render_normal :
   render w parse_def s = Ok t -> Normal t.
 Proof. exact render_normal. Qed.
 Print Assumptions C33_styledown_render_normal.
+
+(* a style line that runs out under a character is the error value: the repaired
+   Render tests len(style) < w before it slices style[:w]
+   (checks/C33.fixes/styledown-parse-short-style-line.diff), so for this class
+   of markup the Go code returns an error and neither reads past the slice nor
+   panics; the runner reports any panic of Render as a direct violation *)
+Theorem C33_styledown_short_style_line_error :
+  forall (w : N -> Z) defs tb r txt sty,
+  (length sty < Z.to_nat (w r))%nat ->
+  render_line w defs tb (r :: txt) sty = Err.
+Proof. exact render_line_short_style. Qed.
+Print Assumptions C33_styledown_short_style_line_error.
 
 (* the builder appends styled content character by character, and a normal
    Text is determined by it (used to conclude equality of Texts) *)
